@@ -150,7 +150,7 @@ var alphabet = []alphaEntry{
 	{sent("os.ErrClosed"), "uc", -1},
 	{sent("io.EOF"), "c", lEOF},
 	{sent("io.ErrUnexpectedEOF"), "c", lEOF},
-	{sent("io.ErrNoProgress"), "c", -1},
+	{sent("io.ErrNoProgress"), "uc", -1},
 	{sent("io.ErrClosedPipe"), "c", lEOF},
 	{sent("io.ErrShortBuffer"), "uc", -1},
 	{sent("syscall.EBADF"), "c", lEOF},
@@ -676,6 +676,34 @@ func (g *gen) uniq(script []int) {
 	}
 }
 
+// readCorpus loads the regression inputs (one JSON case input per file).
+func readCorpus(dir string) []caseIn {
+	if dir == "" {
+		return nil
+	}
+	ents, err := os.ReadDir(dir)
+	if err != nil {
+		return nil
+	}
+	var cs []caseIn
+	for _, e := range ents {
+		if e.IsDir() || len(e.Name()) < 6 || e.Name()[len(e.Name())-5:] != ".json" {
+			continue
+		}
+		b, err := os.ReadFile(dir + "/" + e.Name())
+		if err != nil {
+			continue
+		}
+		var in caseIn
+		if err := json.Unmarshal(b, &in); err != nil {
+			panic("corpus " + e.Name() + ": " + err.Error())
+		}
+		in.Class = "corpus"
+		cs = append(cs, in)
+	}
+	return cs
+}
+
 func main() {
 	outPath := flag.String("out", "cases.jsonl", "output file")
 	seed := flag.Int64("seed", 1, "seed")
@@ -685,6 +713,7 @@ func main() {
 	pairs := flag.Int("pairs", 600, "random pairs over the full alphabet (-1: all pairs)")
 	bursts := flag.Int("bursts", 16, "error bursts beyond the channel buffer")
 	par := flag.Int("par", 96, "receivers running concurrently")
+	corpus := flag.String("corpus", "", "directory of JSON case inputs that are run first")
 	replay := flag.String("replay", "", "JSON file holding one case input: run it and print the observation")
 	flag.Parse()
 	w := hlib.NewOut(*outPath)
@@ -702,7 +731,7 @@ func main() {
 		}
 		cs = []caseIn{in}
 	} else {
-		cs = newGen(*seed).cases(*n, *exh, *exhc, *pairs, *bursts)
+		cs = append(readCorpus(*corpus), newGen(*seed).cases(*n, *exh, *exhc, *pairs, *bursts)...)
 	}
 	outs := make([]caseOut, len(cs))
 	var wg sync.WaitGroup
